@@ -72,6 +72,8 @@ pub(crate) fn build(parts: &[&str]) -> Option<Def> {
                 let c = Counter::with_opts(opts_of(&n, &h, &ps)).ok()?; c.inc_by(v);
                 descs.push(c.desc()[0].clone()); fams.extend(c.collect()); sds.push(sdesc(&n, &h, &ps, &[])); lnames.push(ps.iter().map(|x| x.0.clone()).collect());
             } }
+            // `nodesc=1`: a collector that describes nothing (collector id 0) but still collects its samples
+            if parts.contains(&"nodesc=1") { descs.clear(); sds.clear(); }
             return Some(Def { coll: AnyColl::X(Custom { descs, fams }), sdescs: sds, kind: "counter".into(), all_label_names: lnames });
         }
         _ => return None,
@@ -122,7 +124,11 @@ fn gen_def(rng: &mut Rng, cid: usize, stats: &mut Stats) -> String {
             let n = if rng.chance(12) { 0 } else { rng.range(1, 3) }; let mut subs = vec![];   // n = 0: a collector without descriptors (collector id 0)
             for _ in 0..n { let nm = *rng.pick(NAMES); let hp = if rng.chance(85) { "h" } else { "help" }; let mut cs: Vec<(String, String)> = vec![]; for (k, vs) in cpool { if rng.chance(35) { cs.push((k.to_string(), rng.pick(vs).to_string())); } }
                 subs.push(format!("sub={}/{}/{}/{}", hex(nm), hex(hp), pairs_str(&cs), f64_hex(rng.below(4) as f64))); }
-            format!("reg def c{} kind=custom name={} help={} consts=- vars=- {}", cid, hex(name), hex(help), subs.join(" "))
+            // a collector that describes nothing is admitted without any check, so its samples get names nobody else uses and no labels
+            // (what it may legitimately clash with is not the registry's business); two of them compete for collector id 0
+            let nodesc = n > 0 && rng.chance(15); if nodesc { stats.hit("def:custom-without-descriptors-with-samples");
+                subs = (0..n).map(|j| format!("sub={}/{}/-/{}", hex(&format!("nd{}x{}", cid, j)), hex("h"), f64_hex((j + 1) as f64))).collect(); }
+            format!("reg def c{} kind=custom name={} help={} consts=- vars=- {}{}", cid, hex(name), hex(help), subs.join(" "), if nodesc { " nodesc=1" } else { "" })
         }
         "histogram" => format!("reg def c{} kind=histogram name={} help={} consts={} vars=- obs={}", cid, hex(name), hex(help), pairs_str(&consts), f64_list(&(0..rng.below(4)).map(|_| *rng.pick(&[0.25, 0.5, 1.0, 3.0])).collect::<Vec<_>>())),
         _ => format!("reg def c{} kind={} name={} help={} consts={} vars=- val={}", cid, kind, hex(name), hex(help), pairs_str(&consts), f64_hex(rng.below(6) as f64)),
@@ -252,7 +258,10 @@ impl Area for RegArea {
                             seen.push(sd); staged.insert(sd.fq.clone(), sig);
                         }
                         if want == "ok" && d.sdescs.is_empty() && registered.iter().any(|(rs, _, _)| rs.is_empty()) { want = "err:AlreadyReg".into(); }
+                        let before = show_gather(&r.gather());
                         let got = match r.register(d.coll.boxed()) { Ok(()) => "ok".to_string(), Err(e) => err_kind(&e) };
+                        // "the registry afterwards behaves exactly as if the call had never been made": a refused registration leaves what gather() returns untouched
+                        if got != "ok" { let after = show_gather(&r.gather()); if after != before { fails.push(Failure { class: "admission-wrong".into(), detail: format!("`{}` was refused ({}) but changed what the registry gathers: before [{}], after [{}]", line, got, before, after) }); } }
                         if got != want { fails.push(Failure { class: if (got == "ok") != (want == "ok") { "admission-wrong".into() } else { "admission-error-kind".into() }, detail: format!("`{}` returned {}, the admission rule gives {}", line, got, want) }); }
                         if got == "ok" { nreg_ok += 1; registered.push((d.sdescs.clone(), d.coll.clone(), d.kind.clone())); for (k, v) in staged { sigs.insert(k, v); } } else { nreg_err += 1; }
                         stats.hit(&format!("register:{}", got));
